@@ -558,8 +558,19 @@ def oracle_matcher(rng, n, stats):
                 if (e[3] is None) != is_missing(s) or (e[3] is not None and float(e[3]) != float(s)):
                     v.append(viol('C05', '_sim_score is not the value sim_function returned', case, e[3], None if is_missing(s) else float(s)))
                     break
+        def ordered_rows(fr):
+            # rows in order; `_sim_score` compared numerically (0 and 0.0 are one score: which one a frame shows depends on
+            # pandas' dtype inference over the concatenated chunks)
+            sj = list(fr.columns).index('_sim_score') if '_sim_score' in fr.columns else -1
+            res = []
+            for r in fr.itertuples(index=False, name=None):
+                cs = [cell(x) for x in r]
+                if sj >= 0 and isinstance(cs[sj], dict) and 'i' in cs[sj]:
+                    cs[sj] = {'f': f2hex(float(cs[sj]['i']))}
+                res.append(cs)
+            return res
         for nj, o2 in outs.items():
-            if [tuple(map(cell, r)) for r in o2.itertuples(index=False, name=None)] != [tuple(map(cell, r)) for r in out.itertuples(index=False, name=None)]:
+            if ordered_rows(o2) != ordered_rows(out):
                 v.append(viol('C05', 'apply_matcher result depends on n_jobs', dict(case, n_jobs=nj)))
         v += [dict(x, property='C11') for x in check_header_projection(case, out, L, R, lk, rk, lo, ro, 'l_', 'r_', oss)] if False else []
         stats.hit('oracle.matcher.kept', len(out))
